@@ -712,6 +712,7 @@ void mmd_export_toc_entry_opendocument(DString * out, const char * source, scrat
 				scratch->label_counter = (int) * counter;
 				temp_char = label_from_header(source, entry, scratch);
 				printf("<text:p text:style-name=\"TOC_Item\"><text:a xlink:type=\"simple\" xlink:href=\"#%s\" text:style-name=\"Index_20_Link\" text:visited-style-name=\"Index_20_Link\">", temp_char);
+				header_clean_trailing_whitespace(entry->child, source);
 				mmd_export_token_tree_opendocument(out, source, entry->child, scratch);
 				trim_trailing_whitespace_d_string(out);
 				print_const(" <text:tab/>1</text:a></text:p>\n");
